@@ -811,3 +811,85 @@ def factory_state_rule(ctx, rule):
             '`%s` is created once per configurable in _make_gin_wrapper and %s inside gin_wrapper: all calls of the configurable, in all threads and '
             'scopes, share that scratch state, so one call can record / use values of another' % ((bad[0][0], bad[0][2]) if bad else ('', '')),
             wr.loc(bad[0][1]) if bad else wr.loc(), sites=len(made), instance='factory-state')
+
+
+def loop_source_unfiltered(ctx, rule, qual, source_qual, what):
+  """The loop of a finalize hook runs over everything `source` yields: the iterable is the call itself (a list / tuple / sorted
+  copy of it is fine), not a filtered or de-duplicated selection of it."""
+  prog = ctx.prog
+  f = ctx.func(qual)
+  g, facts = std_facts(prog, f)
+  from ..lib import expand_expr
+  loops = [n for n in g.live_nodes() if n.kind == 'for' and not n.loops]
+  ok, why, n_src = bool(loops), 'no loop', 0
+  for lp in loops:
+    it = expand_expr(facts[lp.id], lp.ast.iter)
+    src = [c for c in ast.walk(it) if isinstance(c, ast.Call) and prog.resolve_call(f, c) == source_qual]
+    if not src:
+      continue
+    n_src += 1
+    e = it
+    while isinstance(e, ast.Call) and u(e.func) in ('list', 'tuple', 'sorted', 'iter') and e.args:
+      e = e.args[0]
+    if e is not src[0] and not (isinstance(e, ast.Call) and prog.resolve_call(f, e) == source_qual):
+      ok = False
+      why = 'the hook loops over `%s`' % u(it)[:100]
+  ctx.check(ok and n_src > 0, rule, construct(f), 'the hook examines every %s' % what,
+            'the hook no longer examines every %s (%s): what it is meant to reject is accepted for the ones left out' % (what, why if n_src else 'source not iterated'),
+            f.loc(), instance='source-unfiltered')
+
+
+def inverse_lookup_by_equality(ctx, rule):
+  """_inverse_lookup recognises the registered object by equality (`in (wrapped, wrapper)` / `==`): bound methods, class
+  methods and method-wrappers are re-created on every attribute access and are equal to, not identical with, what was registered (T6)."""
+  f = ctx.func('config._inverse_lookup')
+  p0 = f.params[0]
+  ident, equal = [], []
+  for c in walk_local(f.node):
+    if isinstance(c, ast.Compare) and len(c.ops) == 1:
+      sides = [c.left] + list(c.comparators)
+      txt = [u(x) for x in sides]
+      if p0 not in txt:
+        continue
+      other = sides[1] if txt[0] == p0 else sides[0]
+      about_reg = any(isinstance(x, ast.Attribute) and x.attr in ('wrapped', 'wrapper') for x in ast.walk(other)) or \
+          (isinstance(other, ast.Name) and any(isinstance(a, ast.Assign) and u(a.targets[0]) == other.id and
+                                               any(isinstance(x, ast.Attribute) and x.attr in ('wrapped', 'wrapper') for x in ast.walk(a.value))
+                                               for a in walk_local(f.node)))
+      if not about_reg:
+        continue
+      if isinstance(c.ops[0], (ast.Is, ast.IsNot)):
+        ident.append(c)
+      elif isinstance(c.ops[0], (ast.In, ast.NotIn, ast.Eq, ast.NotEq)):
+        equal.append(c)
+  ctx.check(bool(equal) and not ident, rule, construct(f), 'the object handed in is matched against the registered original / wrapper by equality',
+            'the registered object is matched by identity (`%s`): a bound method, class method or method-wrapper is a new (equal) object on every '
+            'access, so it is no longer found -- lookups by object fail and dynamic registration registers it a second time'
+            % (u(ident[0]) if ident else 'no equality test left'), f.loc(ident[0]) if ident else f.loc(), instance='lookup-by-equality')
+
+
+def record_before_call(ctx, rule):
+  """The wrapper writes the call's parameters into the operative record *before* it calls the configurable: a record written
+  after the call is missing for calls that raise, and lands in a configuration that was cleared while the call was running."""
+  from .wrapper import WrapperModel
+  from ..lib import def_of
+  w = WrapperModel(ctx)
+  f, g, facts = w.f, w.g, w.facts
+  ups = []
+  for n in g.live_nodes():
+    s_ = n.ast
+    if n.kind == 'stmt' and isinstance(s_, ast.Expr) and isinstance(s_.value, ast.Call) and isinstance(s_.value.func, ast.Attribute) \
+        and s_.value.func.attr == 'update':
+      rv = s_.value.func.value
+      d = (def_of(facts[n.id], rv.id) or '') if isinstance(rv, ast.Name) else u(rv)
+      if d.startswith('_OPERATIVE_CONFIG.setdefault(') or d.startswith('_OPERATIVE_CONFIG['):
+        ups.append(n)
+    if n.kind == 'stmt' and isinstance(s_, ast.Assign) and isinstance(s_.targets[0], ast.Subscript) and u(s_.targets[0].value).startswith('_OPERATIVE_CONFIG'):
+      ups.append(n)
+  if not ups or w.call_node is None:
+    raise AnalysisError('gin_wrapper: the operative-record update or the wrapped call was not found')
+  late = witness(g, g.entry.id, [w.call_node.id], avoid=[n.id for n in ups])
+  ctx.check(late is None, rule, construct(f), 'the operative record is updated on every path before the configurable is called',
+            'the configurable can be called before the operative record is updated (the update at line %d comes later, or only on some paths): a call that '
+            'raises leaves no record, and a record written after the call survives a clear_config made during the call' % ups[0].lineno,
+            f.loc(w.call_node.ast), instance='record-before-call', path=describe_path(g, late) if late else None)
